@@ -240,6 +240,18 @@ class C11(Prop):
             insts = [p[-1], p[-2]]
             want = [q for q in M.paths if q[-1] is insts[0] or q[-1] is insts[1]]
             compare("get_hinstances:collection-of-instances", fns["get_hinstances"](list(insts)), want)
+        # --- a collection that mixes a netlist (or hierarchical-instance) root with an element root of
+        # the same scope: still one reference per occurrence
+        if defs:
+            Dm = defs[(s // 5) % len(defs)]
+            for rec in (True, False):
+                seen, want = set(), []
+                for q in M.hinstances(rec) + M.paths_of_definition(Dm):
+                    if key(q) not in seen:
+                        seen.add(key(q))
+                        want.append(q)
+                compare("get_hinstances:collection-netlist+definition:%s" % ("recursive" if rec else "flat"),
+                        fns["get_hinstances"]([nl, Dm], recursive=rec), want)
         # --- hierarchical references as roots
         inst_paths = [p for p in M.paths if len(p) >= 2 and p[-1].reference is not None]
         for j in range(min(3, len(inst_paths))):
